@@ -29,7 +29,9 @@ def run(ctx, R, tier):
     from .c17 import once as update_order
     update_order(F, R)
     # 'a speed change or speed tween takes effect when it is due': the clock does not run on a cached copy of its speed
-    from .c06 import param_cache
+    published_width(F, R, fn_filter=lambda q: q.startswith('clock::'), floor=4)
+    from .c06 import param_cache, accumulators
+    accumulators(F, R, rule='B.C05.accumulate')
     param_cache(F, R, rule='B.C05.param-cache', fn_filter=lambda q: q.startswith('clock::') or '<clock::' in q, floor=1)
     from ..enginea import run_singular_only
     run_singular_only(R, F, lambda fn: fn.startswith('clock::') or '<clock::' in fn, floor=3)
@@ -251,9 +253,35 @@ def start_time_rule(F, R):
         elif arm == 'Immediate':
             if to_imm is False and ret != 'False':
                 bad.append('Immediate returns %s' % ret)
+    # the countdown runs in the unit it is kept in: what is taken off a Delayed start per update is exactly this update's dt
+    # (the same `Duration::from_secs_f64(dt)` in all three copies of the countdown - Parameter, Tweener, StartTime - so that a
+    # sound, a tween and a modulator given the same delay start in the same update; a per-update truncation to whole micro-
+    # or milliseconds adds up to a late start)
+    steps = [describe(b, t['args'][1], depth=6, at=x) for x, t in b.calls() if (callee_path(t) or '') == 'std::time::Duration::saturating_sub']
+    R.check(steps == ['std::time::Duration::from_secs_f64(dt)'], 'B.C05.start', 'delay-step',
+            'StartTime::update takes %s off a delayed start per update, not Duration::from_secs_f64(dt)' % steps, detail={'step': steps}, where=b.file)
     arms = set(k[0] for k in seen)
     R.check(not bad and arms >= {'Immediate', 'Delayed', 'ClockTime'}, 'B.C05.start', 'StartTime::update',
             '; '.join(sorted(set(bad))) or 'arms found: %s' % sorted(x for x in arms if x), detail={'paths': len(seen)}, where=b.file)
+
+
+def published_width(F, R, rule='B.C05.published', fn_filter=None, floor=4):
+    """A time or position that one thread publishes for another (the clock's fraction of a tick, a sound's playback position:
+    floats travelling as the bit pattern of an atomic integer) is published at the width it is computed in - `f64::to_bits`
+    on the way in, `f64::from_bits` on the way out.  Narrowed to an f32 on the way, a fraction just below 1 reads back as
+    1.0, and a position a few minutes into a sound is off by whole frames (a relative seek computed from it lands wrong)."""
+    n = 0
+    for b in F.bodies:
+        if b.krate != 'kira' or (fn_filter is not None and not fn_filter(b.path)):
+            continue
+        for bb, t in b.calls():
+            cp = callee_path(t) or ''
+            if not cp.endswith(('::to_bits', '::from_bits')) or '<impl f' not in cp:
+                continue
+            n += 1
+            R.check('<impl f64>' in cp, rule, '%s|%s' % (b.path.split('::{closure')[0].lstrip('<').split(' as ')[0], cp.split('::')[-1]),
+                    '%s publishes / reads a time through %s: single precision' % (b.path, cp), detail={'fn': b.path}, where=b.where(bb), nontrivial=False)
+    R.floor(rule, n, floor)
 
 
 def clock_rules(F, R):
